@@ -59,9 +59,9 @@ func genSeqPlan(prop string, seed uint64, thorough bool) *Plan {
 	case "C05":
 		fams = []fam{{"set", 12}, {"key", 2}, {"expire", 1}, {"string", 1}, {"list", 1}, {"hash", 1}}
 	case "C06":
-		fams = []fam{{"key", 8}, {"string", 3}, {"list", 3}, {"hash", 3}, {"set", 3}, {"expire", 2}}
+		fams = []fam{{"key", 8}, {"string", 3}, {"list", 3}, {"hash", 3}, {"set", 3}, {"expire", 2}, {"bits", 1}}
 	case "C07":
-		fams = []fam{{"expire", 8}, {"string", 3}, {"list", 2}, {"hash", 2}, {"set", 2}, {"key", 3}}
+		fams = []fam{{"expire", 8}, {"string", 3}, {"list", 2}, {"hash", 2}, {"set", 2}, {"key", 3}, {"bits", 2}}
 	default:
 		fams = []fam{{"key", 2}, {"string", 3}, {"list", 3}, {"hash", 3}, {"set", 3}, {"expire", 2}}
 	}
@@ -248,6 +248,8 @@ func genSeqPlan(prop string, seed uint64, thorough bool) *Plan {
 			add(g.keyCmd())
 		case "expire":
 			add(g.expireCmd(now))
+		case "bits":
+			add(g.bitCmd())
 		}
 	}
 	p.Clients = []Client{{Items: items}}
